@@ -300,3 +300,50 @@ func VerifC15PacketTamper() {
 	}
 	verifrt.Reach("end")
 }
+
+// VerifC15HostileServer: lemma X3 (third part, shared with C10) – the server holds the session
+// keys, so it can authenticate *any* packet: arbitrary length fields and flags under a valid
+// MAC must be handled without a crash; a payload length beyond the packet is refused, and a
+// well-formed payload packet delivers exactly its payload prefix.
+func VerifC15HostileServer() {
+	seed := verifrt.Bytes("seed", 32)
+	cc := verifrt.NewConn("c", nil)
+	c := &ssConn{Conn: cc, lenDist: probdist.New(vDrbgSeed(), minLenDistLength, maxLenDistLength, true),
+		receiveBuffer: bytes.NewBuffer(nil), receiveDecodedBuffer: bytes.NewBuffer(nil)}
+	verifrt.Assume(c.initCrypto(seed) == nil)
+	okm := make([]byte, kdfSecretLength)
+	_, _ = io.ReadFull(hkdf.Expand(sha256.New, seed, nil), okm)
+	blk, _ := aes.NewCipher(okm[40:72])
+	iv := append(append([]byte{}, okm[72:80]...), 0, 0, 0, 0, 0, 0, 0, 1)
+	stream := cipher.NewCTR(blk, iv)
+	// the announced total length and the bytes that actually follow are independent
+	total := int(verifrt.Uint16("total_len"))
+	plen := int(verifrt.Uint16("payload_len"))
+	flags := verifrt.Byte("flags")
+	have := []int{0, 2, 5}[verifrt.Pick("body_bytes_class", 0, 2)]
+	body := verifrt.Bytes("body", have)
+	pkt := []byte{byte(total >> 8), byte(total), byte(plen >> 8), byte(plen), flags}
+	pkt = append(pkt, body...)
+	stream.XORKeyStream(pkt, pkt)
+	m := hmac.New(sha256.New, okm[112:144])
+	covered := len(pkt) // the MAC covers header + total_len bytes (bytes behind them belong to the next packet)
+	if total < have {
+		covered = pktHdrLength + total
+	}
+	m.Write(pkt[:covered])
+	cc.In = append(m.Sum(nil)[:macLength], pkt...)
+	cc.MaxChunks = 1
+	cc.EOFAtEnd = true
+	buf := make([]byte, 16)
+	n, err := c.Read(buf)
+	if plen > total {
+		verifrt.Reach("oversized payload length")
+		verifrt.Assert(n == 0 && err != nil, "a payload length beyond the packet length is refused, nothing is delivered")
+	} else if total <= have && flags == pktPayload && plen > 0 {
+		verifrt.Reach("well-formed")
+		verifrt.Assert(err == nil && n == plen && verifrt.Equal(buf[:n], body[:plen]), "a well-formed payload packet delivers exactly its payload")
+	} else {
+		verifrt.Assert(n == 0, "nothing is delivered from an incomplete, empty or non-payload packet")
+	}
+	verifrt.Reach("end")
+}
